@@ -232,6 +232,26 @@ func (s *Session) Do(op string) string {
 		return PtrStr(s.h(int(a[1])))
 	case "rlimit":
 		return "N" + strconv.FormatUint(s.M.VerifReadLimit(), 10)
+	case "reset":
+		// Message.Reset to a fresh arena holding the same bytes (a message value reused for the
+		// next message): every handle is dropped; the observation is the re-armed budget
+		// (ReadOps.OReset: Message.initReadLimit's value)
+		return Safely(func() string {
+			n := s.M.NumSegments()
+			segs := make([][]byte, 0, n)
+			for i := int64(0); i < n; i++ {
+				d, err := s.M.Arena.Data(capnp.SegmentID(i))
+				if err != nil {
+					return "err"
+				}
+				c := make([]byte, len(d)) // cap == len
+				copy(c, d)
+				segs = append(segs, c)
+			}
+			s.M.Reset(capnp.MultiSegment(segs))
+			s.Handles = nil
+			return "N" + strconv.FormatUint(s.M.VerifReadLimit(), 10)
+		})
 	case "walk":
 		var sb strings.Builder
 		Walk(&sb, s.h(int(a[1])), nil, int(a[2]), int(a[3]), int(a[4]))
